@@ -57,7 +57,10 @@ fn sample_seg(e: &Value, t: &Tables, rng: &mut Rng) -> Option<String> {
 /// one rendering of a sequence of elements as word pieces ("." = syllable break)
 fn pieces(es: &Value, t: &Tables, rng: &mut Rng, out: &mut Vec<String>) {
     let Some(a) = es.as_array() else { return };
+    let mut last_unit: Vec<String> = Vec::new();       // what the previous element produced: a variable reference repeats it (segment or whole syllable)
     for e in a {
+        let start = out.len();
+        if e["k"] == "var" && !last_unit.is_empty() { out.extend(last_unit.iter().cloned()); continue; }
         match e["k"].as_str().unwrap_or("") {
             "ipa" | "mx" | "grp" => { if let Some(g) = sample_seg(e, t, rng) { out.push(g); } else { out.push(rng.pick(&COMMON[..]).to_string()); } }
             "set" => { if let Some(items) = e["items"].as_array() { if !items.is_empty() { let it = Value::Array(vec![rng.pick(items).clone()]); pieces(&it, t, rng, out); } } }
@@ -69,6 +72,7 @@ fn pieces(es: &Value, t: &Tables, rng: &mut Rng, out: &mut Vec<String>) {
             "var" => { if let Some(last) = out.iter().rev().find(|p| *p != ".").cloned() { out.push(last); } }
             _ => {}
         }
+        if out.len() > start { last_unit = out[start..].to_vec(); }
     }
 }
 
